@@ -29,29 +29,7 @@ def probe(w, s, algos):
 
 
 def fresh_instance_probe(w, s, algos):
-    """run the probe on the instance that just served the call and on a fresh instance over a copy of the same store"""
-    import shutil
-    if w.mode == "model":
-        F = w.F
-        F2 = symfs.FS(F.b.clone_concrete(), blksize=w.blksize)
-        F2.env = dict(F.env)
-        used = probe(w, s, algos)
-        w.shim.fs = F2
-        try:
-            fresh = probe(w, w.instance(), algos)
-        finally:
-            w.shim.fs = F
-    else:
-        root2 = w.scratch + "/copy"
-        shutil.copytree(w.scratch + "/s", root2 + "/s")
-        used = probe(w, s, algos)
-        s2 = w.module().FileHashStore(w.props(root2 + "/s"))
-        fresh = probe(w, s2, algos)
-        shutil.rmtree(root2, ignore_errors=True)
-    if used != fresh:
-        d = [(i, a, b) for i, (a, b) in enumerate(zip(used, fresh)) if a != b][:2]
-        return [("results-depend-on-earlier-calls-on-the-instance", d)]
-    return []
+    return step.fresh_instance_equivalence(w, s, lambda w_, s_: probe(w_, s_, algos))
 
 
 PROBE_ALGOS = ["sha256", "MD5", "SHA-384", "sha3_256", "blake2b"]
